@@ -133,7 +133,7 @@ for _sv in (False, True):
         template("Server", "accept", "accept_prog",
                  ["AWhileActive", "AAccept", "ATimeoutContinue", "AEintrContinue"] + (["AResourceErrorSleepContinue"] if _sv else [])
                  + ["AErrorRaiseEOF", "AElseBreak", "AIfInactiveReturn", "ASetBlocking", "AClientsAdd"] + (["ARecheckClosed"] if _rc else [])
-                 + ["ACallAcceptMethod"],
+                 + ["ACallAcceptMethod", "ASpawnFailDiscardClose"],
                  _ACC_HEAD + (_ACC_SURVIVE if _sv else "") + _ACC_MID + (_ACC_RECHECK if _rc else "") + _ACC_TAIL_GUARDED,
                  accept_survives_oserror=_sv, accept_rechecks_closed=_rc, accept_survives_spawn_failure=True)
         template("Server", "accept", "accept_prog",
